@@ -195,13 +195,95 @@ def assert_equal_up_to_phase(cx, P, E, tol, label, small=None, wrong=False):
         for j in range(4):
             R[i, j] = Mx[i, j] if i != j else Mx[i, i] - Mx[0, 0]
     R[0, 0] = Mx[0, 0] * (Mx[0, 0].conjugate() if hasattr(Mx[0, 0], 'conjugate') else np.conj(Mx[0, 0])) - 1
+    R0 = R
     if small and cx.mode == 'sym':
         R = relax_small_angles(cx, R, small)
     target = np.zeros((4, 4))
     if wrong:
-        cx.opts['vc_timeout_ms'] = 10000  # twin only: bound the witness search per path
         target[1, 2] = 0.01
-    cx.close(R, target, tol=tol, label=label)
+        if cx.mode == 'sym':
+            # twin only: drop float-rounding residue (|coef| < 1e-9) so that the refutation of the wrong entry is an
+            # exact linear query over the path condition (the model is then replayed on the real code)
+            for idx in itertools.product(range(4), range(4)):
+                R[idx] = SNum.coerce(R[idx]).pruned(1e-9)
+    close_with_candidates(cx, R, target, tol, label, R0)
+
+
+# ---- counterexample candidates (never part of a proof) ----------------------------------------------
+_FRACS = (0.137, 0.377, 0.617, 0.883, 0.5, 0.271, 0.743)
+
+
+def _candidate_envs(cx, limit=400):
+    """points of the declared boxes (fixed fractions of every box, deviations at 0 / +-half / +-0.9 of their bound)
+    that satisfy the path condition when it is EVALUATED numerically (abs atoms computed from their arguments)"""
+    from symx.explore import _cond_holds
+
+    names, grids = [], []
+    for n, v in cx.vars.items():
+        if v['kind'] != 'real' or n.startswith('_'):
+            continue
+        lo, hi = float(v['lo']), float(v['hi'])
+        names.append(n)
+        if hi - lo < 1e-6:
+            grids.append([0.5 * (lo + hi) + f * 0.5 * (hi - lo) for f in (0.0, 0.5, -0.5, 0.9, -0.9)])
+        else:
+            grids.append([lo + f * (hi - lo) for f in _FRACS])
+    out = []
+    for ci, combo in enumerate(itertools.product(*grids)):
+        if ci >= 4000 or len(out) >= limit:
+            break
+        env = dict(zip(names, combo))
+        ok = True
+        for key, val in cx.atoms.items():
+            if key[0] == 'c15-relaxed':
+                continue
+            if key[0] != 'abs':
+                return []
+            arg = SNum(dict(key[1]))
+            env[next(iter(val.variables()))] = abs(arg.eval(env).real)
+        for c in cx.pc:
+            if _cond_holds(cx, c, env) is not True:
+                ok = False
+                break
+        if ok:
+            out.append(env)
+    return out
+
+
+def close_with_candidates(cx, A, B, tol, label, A_unrelaxed=None):
+    """cx.close(A, B) -- the SMT verdict -- with a cheaper route to a COUNTEREXAMPLE when the linear stage does not
+    discharge the VC: the difference is evaluated numerically at points satisfying the path condition; a point that
+    violates the assertion is raised as a violation candidate (the driver replays it on the real code in concrete
+    mode before reporting it).  If no candidate is found the full lattice / non-linear solver stages run."""
+    if cx.mode != 'sym':
+        return cx.close(A, B, tol=tol, label=label)
+    from symx.ctx import Violation
+    from symx.vc import Inconclusive
+
+    saved = {k: cx.opts.get(k) for k in ('lattices', 'vc_timeout_ms')}
+    cx.opts['lattices'] = ()
+    cx.opts['vc_timeout_ms'] = 3000
+    try:
+        cx.close(A, B, tol=tol, label=label)
+        return
+    except Inconclusive:
+        pass
+    finally:
+        for k, v in saved.items():
+            if v is None:
+                cx.opts.pop(k, None)
+            else:
+                cx.opts[k] = v
+    A0 = A if A_unrelaxed is None else A_unrelaxed
+    flatA = [SNum.coerce(e) for e in np.asarray(A0, dtype=object).ravel()]
+    flatB = [complex(e) for e in np.asarray(B).ravel()]
+    for env in _candidate_envs(cx):
+        worst = max(abs(a.eval(env) - b) for a, b in zip(flatA, flatB))
+        if worst > 10 * tol:
+            model = {n: env[n] for n, v in cx.vars.items() if v['kind'] == 'real' and not n.startswith('_')}
+            model.update({n: v.get('value', 0) for n, v in cx.vars.items() if v['kind'] == 'choice'})
+            raise Violation(label, f'candidate from numeric evaluation at a point of the path condition (|diff| = {worst:.3g}); replayed on the real code by the driver', model)
+    cx.close(A, B, tol=tol, label=label)
 
 
 # ---- near-threshold regimes ---------------------------------------------------------------------
@@ -213,6 +295,9 @@ def assert_equal_up_to_phase(cx, P, E, tol, label, small=None, wrong=False):
 # c in [-(k atol)^2/2, 0], s in [-k atol, k atol]: for every real d in [-atol, atol] the true
 # (cos(kd) - 1, sin(kd)) lies in that box, so validity of the relaxed VC implies validity of the original
 # one (sound weakening), and the relaxed VC is decided by z3 in linear arithmetic.
+# witness search for genuine violations: the "far" regimes exclude the pi/4 lattice points, so pi/6 and pi/12 lattices
+# come first; 8 s per query bounds the time spent on a failing path (only reached when the linear stage fails)
+SEARCH = {'lattices': (6, 12, 4), 'vc_timeout_ms': 8000}
 EPS = 1e-12  # regimes overlap by EPS: comparisons of the code use float-rounded constants (1e-16 slivers)
 
 
@@ -308,7 +393,7 @@ def obligations(tier):
             cx.check(bool(abs(abs(complex(k.global_phase)) - 1) < 1e-12), label='kak.global_phase.unit')
             U = mat_mul(mat_mul(kron2(a0, a1), interaction(x2, y2, z2)), kron2(b0, b1)) * k.global_phase
             E = interaction(x + 0.3, y, z) if wrong == 'unitary' else interaction(x, y, z)
-            cx.close(U, E, label='kak.reconstruct')
+            close_with_candidates(cx, U, E, 1e-7, 'kak.reconstruct')
             # the library's own reconstruction (KakDecomposition._unitary_ / map_eigenvalues with symbolic phases)
             cx.close(cirq.unitary(k), E, label='kak.unitary_protocol')
 
@@ -419,6 +504,7 @@ def obligations(tier):
                 parity_body(mod),
                 twin=parity_body(mod, wrong=True),
                 points=PTSR,
+                opts=dict(SEARCH),
                 desc=f'two_qubit_to_{mod}._parity_interaction(rads symbolic in [-{BX:.2f},{BX:.2f}], atol=1e-8, frame in {{none, two basis changes}}): product equals exp(i rads PP) on the framed axis up to global phase within {KTOL:g}; at most one two-qubit gate',
             )
         )
@@ -460,7 +546,7 @@ def obligations(tier):
                 non_local_body(mod, partial),
                 twin=non_local_body(mod, partial, wrong=True),
                 points=PTS3,
-                opts={'weight': 6},
+                opts={'weight': 6, **SEARCH},
                 desc=f'two_qubit_to_{mod}._non_local_part' + (f'(allow_partial_czs={partial})' if mod == 'cz' else '') + ' with symbolic coefficients: product of documented matrices equals exp(i(xXX+yYY+zZZ)) up to global phase; <= 3 two-qubit gates',
             )
         )
@@ -505,7 +591,7 @@ def obligations(tier):
                 kak_ops_body(mod, partial),
                 twin=kak_ops_body(mod, partial, wrong=True),
                 points=PTSK,
-                opts={'weight': 8},
+                opts={'weight': 8, **SEARCH},
                 desc=f'two_qubit_to_{mod}._kak_decomposition_to_operations on KakDecomposition(canonical SYMBOLIC coefficients, concrete local factors from a menu of {len(LOCALS)}): product equals (a0 (x) a1) exp(i(xXX+yYY+zZZ)) (b0 (x) b1) up to global phase; <= 3 two-qubit gates',
             )
         )
@@ -562,7 +648,7 @@ def obligations(tier):
                     chain_body(mod, partial, boxes, xr, max_near),
                     twin=chain_body(mod, partial, boxes, xr, max_near, wrong=True),
                     points=PTS3[:3] if xr == 0 else [{'x_d': 3e-9, 'y': 0.2, 'z': -0.1}],
-                    opts={'weight': 10},
+                    opts={'weight': 10, **SEARCH},
                     desc='kak_canonicalize_vector(x,y,z) (arbitrary, non-canonical coefficients) followed by '
                     + f'two_qubit_to_{mod}._kak_decomposition_to_operations'
                     + (f'(allow_partial_czs={partial})' if mod == 'cz' else '')
